@@ -689,6 +689,9 @@ def judge_run(rec, info, o, fe):
         if vs.get('min_val') is None and vs.get('max_val') is None:
             continue
         sl = 1e-12 * max(1.0, abs(x[i]), abs(lo[i]) if np.isfinite(lo[i]) else 0, abs(hi[i]) if np.isfinite(hi[i]) else 0)
+        # a thickness is read back as the difference of two absolutely stored vertex positions (rounding 16 eps max|z|)
+        zr = 16 * np.finfo(float).eps * float(o.get('zmax_seen', 0.0)) if vs['kind'] == 'thickness' else 0.0
+        sl += zr
         inside_given = all(lo[i] - sl <= t <= hi[i] + sl for t in (x[i], got[i]))
         # as-built: a feasible start that lies outside the wrongly scaled bounds may be handed back unchanged
         kept_start = bstat[i] == 'mech' and start_outside[i] and all(
@@ -706,7 +709,7 @@ def judge_run(rec, info, o, fe):
         raw = o['raw_after'][i]
         rlo = -np.inf if vs.get('min_val') is None else vs['min_val']
         rhi = np.inf if vs.get('max_val') is None else vs['max_val']
-        sr = 1e-12 * max(1.0, abs(raw), abs(rlo) if np.isfinite(rlo) else 0, abs(rhi) if np.isfinite(rhi) else 0)
+        sr = 1e-12 * max(1.0, abs(raw), abs(rlo) if np.isfinite(rlo) else 0, abs(rhi) if np.isfinite(rhi) else 0) + zr
         inside_raw = rlo - sr <= raw <= rhi + sr
         rec.check('bounds-respected', inside_raw,
                   key='bounds-respected:' + (MECH_BOUNDS if (bstat[i] == 'mech' and (inside_given or kept_start))
